@@ -390,3 +390,25 @@ theorem rounds_finish {cfg : Cfg} (rounds : List (List Nat))
       apply ih (fun r' hr' => hr r' (List.mem_cons_of_mem _ hr')) (invA_exec cfg r h)
       simp only [List.length_cons] at hlen
       omega
+
+/-- the completion phase the driver uses (`finish`: round-robin rounds) finishes every task when
+    given `measure` rounds -/
+theorem finish_allFin {cfg : Cfg} (fuel : Nat) {s : State} (h : InvA cfg s)
+    (hfuel : measure cfg s ≤ fuel) : allFin cfg (finish cfg fuel s) = true := by
+  induction fuel generalizing s with
+  | zero =>
+    by_cases hfin : allFin cfg s = true
+    · exact hfin
+    · exfalso
+      obtain ⟨t, ht, hf, hnb⟩ := exists_unblocked h (by simpa using hfin)
+      have := measure_poll_lt cfg t s ht hf hnb
+      omega
+  | succ f ih =>
+    unfold finish
+    by_cases hfin : allFin cfg s = true
+    · simp [hfin]
+    · simp only [hfin]
+      obtain ⟨t, ht, hf, hnb⟩ := exists_unblocked h (by simpa using hfin)
+      have hdec := exec_decreases (List.range cfg.ntasks) h t ht hf hnb (List.mem_range.mpr ht)
+      apply ih (invA_exec cfg _ h)
+      omega
